@@ -1,4 +1,21 @@
-"""C04 — snapshot isolation.  Engine `hist` is shared with C03 (cfg/C03.py)."""
+"""C04 — snapshot isolation.  Engine `hist` is shared with C03 (cfg/C03.py).
+
+Case syntax of engine `hist` (one line; parsers: harness/src/engines/hist.rs `parse_case`, lean/AxVerif/Driver/Hist.lean):
+
+  hist <setup…> | <op> ; <op> ; …
+  setup  tab=<name>(<col>:<type>[!][*],…)   table; types big|int|text; `!` NOT NULL, `*` UNIQUE
+         row=<table>:<v>,<v>,…              committed initial row (one autocommit INSERT each, in order)
+         fresh                              no warm-up transaction: no transaction with id > 0 has committed yet
+  op     s<i> begin|commit|rollback|drop    session control (a session = one transaction; `begin` on an open session drops it first)
+         s<i> <stmt>                        statement in the session's transaction
+         db <stmt>                          Database::execute (autocommit)
+         db batch <stmt> & <stmt> & …       Database::execute_batch
+  stmt   sel <t> [where <col> <cmp> <v>] | ins <t> <v> … [, <v> …]* | upd <t> <col> set|add <v> [where …] | del <t> [where …]
+  cmp    eq ne lt le gt ge          v: canonical decimal (|v| ≤ 10^9) | null | 'lowercase'
+  output one token per op: ok | ok<n> | [sorted rows r;r;…] | conflict | constraint | notfound | type | other | nosession |
+         batch(<tokens>) | batch-<class>;  then ` | ` and `<table>=[rows]` for every table (final committed state)
+  model flags: the Defects field names; pseudo-flags `abs` (run the abstract machine Db.Spec) and `nosort` (rows in row-id order)
+"""
 
 ENGINES = {
     "hist": {
@@ -37,7 +54,7 @@ TEXT = {
             "validation) and an abstract machine in which every transaction works on a private copy of the committed database: every read "
             "returns committed-at-begin ⊕ own writes, reads are repeatable, no version of an uncommitted / later-committed / rolled-back "
             "transaction is ever returned, two concurrent writers of one row never both commit. The model is tied to the code by "
-            "~1 500 (quick) / ~50 000 (thorough) generated multi-session histories run through the public API.",
+            "~1 700 (quick) / ~45 000 (thorough) generated multi-session histories run through the public API.",
     "design_ref": "DESIGN.md §5 C04/C03",
     "note": "Holds for the specification model only: the shipped code stamps UPDATEd versions with the inserter's id (pinned by "
             "test_session_rollback_updates), never records write sets and has a single delete-mark slot — three listed findings with "
